@@ -18,6 +18,7 @@ type Config struct {
 	Restarts bool
 	CheckTx  bool
 	Queries  bool
+	EVM      bool   // include contract deployments / calls
 	Replicas bool   // run the replica comparisons (C01 / C06 / C07)
 	Known    string // path of known_findings.jsonl: violations of listed kinds are not shrunk
 }
@@ -125,7 +126,7 @@ func Run(seed uint64, tier, work, driver string, replay []string, cfg Config) *c
 		"distinct_nontrivial counts distinct (operation kind, tx type, result kind) triples observed"
 	r := rng.New(seed)
 	nh := 12
-	opt := apphist.Options{MaxBlocks: 24, TxPerBlock: 5, InvalidPct: 25}
+	opt := apphist.Options{MaxBlocks: 24, TxPerBlock: 5, InvalidPct: 25, WithEVM: cfg.EVM}
 	if tier == "thorough" {
 		nh = 150
 		opt.MaxBlocks = 60
